@@ -195,9 +195,10 @@ def rabi_cases(draw):
         omega=draw(st.sampled_from([1.0, math.pi, TWO_PI, 12.0]) | gen.fl(0.5, 12)),
         d=draw(st.sampled_from([52, 100, 300, 1000, 1337])),
         phase=draw(st.sampled_from([0.0, 1.0, math.pi, -2.0])),
-        idle_before=draw(st.sampled_from([0, 16, 100])), idle_after=draw(st.sampled_from([0, 16, 100])),
+        idle_before=draw(st.sampled_from([0, 16, 100, 3000])), idle_after=draw(st.sampled_from([0, 16, 100, 1000])),
         zero=draw(st.integers(0, 4)) == 0,
         spectator=draw(st.booleans()),
+        sampling_rate=draw(st.sampled_from([1.0, 1.0, 0.5, 0.2, 0.1])),
     )
 
 
@@ -222,10 +223,12 @@ def check_rabi(case, ctx: Ctx):
     seq.add(Pulse.ConstantPulse(case["d"], om, 0.0, case["phase"]), "ch")
     if case["idle_after"]:
         seq.delay(case["idle_after"], "ch")
-    sim = ctx.must(lambda: QutipEmulator.from_sequence(seq, evaluation_times="Full"), C, "emulator")
+    sr = case.get("sampling_rate", 1.0)
+    sim = ctx.must(lambda: QutipEmulator.from_sequence(seq, sampling_rate=sr, evaluation_times="Full"),
+                   C, "emulator")
     res = ctx.must(lambda: sim.run(), C, "run")
     ctx.nontrivial(not case["zero"])
-    ctx.label(case["basis"], "zero_drive" if case["zero"] else "driven")
+    ctx.label(case["basis"], "zero_drive" if case["zero"] else "driven", f"sampling_rate={sr}")
     n = len(qs)
     T = seq.get_duration()
     states = sim.basis  # name -> ket
@@ -245,9 +248,13 @@ def check_rabi(case, ctx: Ctx):
         if case["zero"]:
             if np.max(np.abs(r.state.full() - sim.initial_state.full())) > 1e-9:
                 ctx.fail(C, "zero_drive_changes_state", f"t={t}")
-    if worst > 1e-2:
-        ctx.fail(C, f"rabi:{case['basis']}", f"max |P_exc - sin^2(Omega t/2)| = {worst:.4f} "
-                                              f"(Omega={om}, d={case['d']})")
+    # a sub-sampled Hamiltonian smears the pulse edges over 1/sampling_rate ns: the
+    # population may lag by Omega * (1/sr - 1) ns / 2 per edge (a skipped pulse is off by ~1)
+    tol = 1e-2 + 1.5e-3 * om * (1 / sr - 1)
+    if worst > tol:
+        ctx.fail(C, f"rabi:{case['basis']}" + (":subsampled" if sr < 1 else ""),
+                 f"max |P_exc - sin^2(Omega t/2)| = {worst:.4f} > {tol:.4f} (Omega={om}, d={case['d']}, "
+                 f"idle {case['idle_before']}/{case['idle_after']} ns, sampling_rate={sr})")
 
 
 # ------------------------------------------------------------------ bitstrings
@@ -604,7 +611,7 @@ CLAUSES = [
     Clause("states", check_states, gen=lambda t: state_cases(t),
            budget={"quick": (16, 8), "thorough": (16, 300)}),
     Clause("rabi", check_rabi, gen=lambda t: rabi_cases(),
-           budget={"quick": (8, 6), "thorough": (16, 150)}),
+           budget={"quick": (8, 10), "thorough": (16, 150)}),
     Clause("bitstrings", check_bits, gen=lambda t: bit_cases(),
            budget={"quick": (4, 100), "thorough": (16, 3000)}),
     Clause("spam", check_spam, gen=lambda t: spam_cases(),
